@@ -110,6 +110,7 @@ static Outcome run_one(int si, const std::vector<uint32_t> &tape) {
 	if (g_counting) {
 		st.evals++;
 		for (auto &l : c.labels) st.labels[l]++;
+		if (t.over) st.labels["tape-overrun(generator-health)"]++;
 		if (c.nontrivial) {
 			st.nontriv_evals++;
 			if (st.fps.size() < FP_CAP) st.fps.insert(c.fp);
